@@ -300,8 +300,17 @@ def gen_e2e(rng, search, cores=1, thorough=False):
         settings = {"n_particles": rng.randint(4, 7), "iters": rng.randint(2, 6)}
     elif search == "drawer":
         settings = {"total_draws": rng.randint(3, 20)}
-    return {"kind": "e2e", "search": search, "spec": spec, "terms": terms, "cores": cores, "seed": rng.randrange(10 ** 6),
+    case = {"kind": "e2e", "search": search, "spec": spec, "terms": terms, "cores": cores, "seed": rng.randrange(10 ** 6),
             "settings": settings, "spec_paths": [p for p, _ in leaves(spec["root"])]}
+    if search == "drawer" and rng.random() < 0.7:
+        # a region where the fit raises FitException: the initializer must drop those draws
+        # without shifting the likelihoods of the remaining ones
+        path, (kind, k) = rng.choice([lf for lf in leaves(spec["root"]) if lf[1][0] == "p"])
+        p = spec["priors"][k]
+        lo, hi = unhex(p["lo"]), unhex(p["hi"])
+        a = lo + (hi - lo) * rng.choice([0.0, 0.25, 0.5])
+        case["reject"] = [path.split("."), a, a + (hi - lo) * rng.choice([0.25, 0.4])]
+    return case
 
 
 # ---------------------------------------------------------------------------
@@ -372,6 +381,11 @@ def oracle(c, r):
             if i >= len(st["rows"]) or [unhex(x) for x in st["rows"][i]] != vec or unhex(st["ll"][i]) != ll \
                     or unhex(st["lp"][i]) != lp or unhex(st["w"][i]) != w:
                 add("ll", "from_lists sample %d does not carry the %d-th entry of every input list" % (i, i))
+        if c.get("reject"):
+            rp, rlo, rhi = c["reject"]
+            v = vals[prior_of_path[".".join(rp)]]
+            if rlo <= v < rhi:
+                add("ll", "sample %d lies in the region where the likelihood raises FitException (%s = %r)" % (i, ".".join(rp), v))
         if not close(post, ll + lp):
             add("post", "sample %d: log_posterior %r != log_likelihood + log_prior %r" % (i, post, ll + lp))
         if not (w >= 0.0):
@@ -381,14 +395,12 @@ def oracle(c, r):
     if samples:
         finite = [x for x in lls if not math.isnan(x)]
         m = max(finite) if finite else float("nan")
-        first = lls.index(m) if finite else 0
         if obs["best"] is None:
             add("best", "no maximum-likelihood sample although there are %d samples" % len(samples))
         else:
             if lls[obs["best"]] != m:
                 add("best", "max_log_likelihood_sample has %r, the maximum over the samples is %r" % (lls[obs["best"]], m))
-            elif obs["best"] != first:
-                add("best", "max_log_likelihood_sample is sample %d, the first maximum is sample %d" % (obs["best"], first))
+            # (which of several equal maxima is reported is not part of the property; the model says "the first")
             bvals = values_of(samples[obs["best"]]["kw"], "best sample")
             if bvals is not None:
                 want_vec = [bvals[k] for k in spec["creation"]]
